@@ -176,6 +176,11 @@ def all_exprs(full):
       out.append(('if', c, t, e))
   for c1, c2 in itertools.product(be[:6], repeat=2):
     out.append(('if', c1, x, ('if', c2, y, N(0))))
+  # the chain form `if .. then .. else if .. then .. else ..` (one implication with several branches), also over records with a field read off it
+  for c1, c2 in itertools.product(be[:4], repeat=2):
+    out.append(('if', c1, x, ('if', c2, y, N(0)), 'flat'))
+  rflat = ('if', Bin('<', x, y), ('rec', (('a', x), ('b', S('lo')))), ('if', Bin('==', x, y), ('rec', (('a', N(7)), ('b', S('eq')))), ('rec', (('a', y), ('b', S('hi'))))), 'flat')
+  out += [('fld', rflat, 'a'), ('fld', rflat, 'b'), rflat, ('if', Bin('<', x, N(2)), S('s'), ('if', Bin('<', y, N(2)), S('t'), ('if', Bin('==', x, y), S('u'), S('v'))), 'flat')]
   # strings
   sx = Call('ToString', x); sy = Call('ToString', y)
   out += [Bin('++', sx, sy), Bin('++', S('a'), sx), Bin('++', Bin('++', sx, S('-')), sy), Bin('==', sx, S('1')), Bin('==', Bin('++', sx, sy), S('12'))]
@@ -219,6 +224,7 @@ def gen_expr(full, batch=16):
     (Lit('A', x, y), Eq(V('r'), ('if', Bin('>', x, N(1)), ('rec', (('lo', Bin('-', x, N(1))), ('hi', Bin('+', x, N(1))))), ('rec', (('lo', N(0)), ('hi', N(10)))))), Eq(V('p'), ('fld', V('r'), 'lo')), Eq(V('q'), ('fld', V('r'), 'hi'))),
     (Lit('A', x, y), Eq(V('r'), ('if', Bin('<', x, y), ('rec', (('lo', x), ('hi', y))), ('if', Bin('==', x, y), ('rec', (('lo', N(7)), ('hi', N(8)))), ('rec', (('lo', y), ('hi', x)))))), Eq(V('q'), ('fld', V('r'), 'hi')), Eq(V('p'), Bin('+', ('fld', V('r'), 'lo'), ('fld', V('r'), 'hi')))),
     (Lit('A', x, y), Eq(V('l'), ('if', Bin('>', x, N(1)), ('list', (x,)), ('list', (y, x)))), Eq(V('p'), Call('Size', V('l'))), Eq(V('q'), ('elem', V('l'), N(0)))),
+    (Lit('A', x, y), Eq(V('r'), ('if', Bin('<', x, y), ('rec', (('lo', x), ('hi', y))), ('if', Bin('==', x, y), ('rec', (('lo', N(7)), ('hi', N(8)))), ('rec', (('lo', y), ('hi', x)))), 'flat')), Eq(V('q'), ('fld', V('r'), 'hi')), Eq(V('p'), ('fld', V('r'), 'lo'))),
     (Lit('A', x, y), Eq(V('r'), ('rec', (('a', Bin('+', x, y)), ('b', ('rec', (('c', y),)))))), Eq(V('p'), Bin('*', ('fld', V('r'), 'a'), ('fld', V('r'), 'a'))), Eq(V('q'), Bin('+', ('fld', ('fld', V('r'), 'b'), 'c'), ('fld', V('r'), 'a')))),
     (Lit('A', x, y), Eq(V('s'), Comb('Sum', z, (Lit('A', x, z),))), Eq(V('p'), Bin('+', V('s'), V('s'))), Eq(V('q'), ('if', Bin('>', V('s'), N(2)), V('s'), N(0)))),
     (Lit('A', x, y), Eq(V('w'), ('if', Bin('>', x, y), x, y)), Eq(V('p'), Bin('*', V('w'), V('w'))), Eq(V('q'), ('if', Bin('==', V('w'), x), V('w'), Bin('-', N(0), V('w'))))),
@@ -409,6 +415,22 @@ def gen_precedence():
     yield c
 
 
+def gen_recpattern():
+  p_, q_, r_ = V('p'), V('q'), V('r')
+  pat = ('rec', (('a', p_), ('b', q_)))
+  inner = ('rec', (('a', x), ('b', y)))
+  bodies = [
+    (Lit('A', x, y), Eq(r_, ('rec', (('p', inner), ('n', N(1))))), Eq(('fld', r_, 'p'), pat)),
+    (Lit('A', x, y), Eq(V('l'), ('list', (inner, inner))), Eq(('elem', V('l'), N(1)), pat)),
+    (Lit('A', x, y), Eq(('if', Bin('<', x, y), inner, ('rec', (('a', y), ('b', x)))), pat)),
+    (Lit('A', x, y), Eq(pat, ('fld', ('rec', (('p', inner),)), 'p'))),
+    (Lit('A', x, y), Eq(inner, pat)),
+  ]
+  for b in bodies:
+    yield Case('EQFORMS', Program([R('T', p_, q_, body=b)]), ['T'])
+    yield Case('EQFORMS', Program([R('T', p_, q_, body=b[:1] + b[1:][::-1])]), ['T'])
+
+
 def gen_reccol():
   Rp = [R('Rp', x, ('rec', (('a', x), ('b', y))), body=(Lit('A', x, y),)), Ann('@NoInject(Rp);')]
   yield Case('EXPR', Program(Rp + [R('T', V('p'), V('q'), body=(Lit('Rp', x, V('r')), Eq(V('p'), ('fld', V('r'), 'a')), Eq(V('q'), ('fld', V('r'), 'b'))))]), ['T', 'Rp'])
@@ -496,7 +518,7 @@ def val_dbs():
 def c01_cases(thorough):
   dbs = dbs_ab(2) + val_dbs()
   dbs3 = dbs_ab(3) if thorough else None      # thorough: all multisets of <=3 rows per table (35 x 10 = 350 databases) for the smaller families
-  gens = [gen_cq(3 if thorough else 2), gen_cons(2 if thorough else 1), gen_disj(thorough), gen_expr(thorough), gen_reccol(), gen_func(thorough), gen_inj(thorough), gen_eqforms(), gen_precedence()]
+  gens = [gen_cq(3 if thorough else 2), gen_cons(2 if thorough else 1), gen_disj(thorough), gen_expr(thorough), gen_reccol(), gen_func(thorough), gen_inj(thorough), gen_eqforms(), gen_recpattern(), gen_precedence()]
   seen = set()
   for g in gens:
     for c in g:
@@ -938,6 +960,8 @@ def rec_shapes():
   S['count_paths'] = ([R('C', x, y, value=Aggr('Sum', N(1)), body=(E(x, y),)), R('C', x, z, value=Aggr('Sum', V('c')), body=(Lit('C', x, y, logica_value=V('c')), E(y, z), Cmp('<', y, z)))], ['C'], 'agg', 'lin')
   S['through_functor'] = ([D('T', x, y, body=(E(x, y),)), D('T', x, z, body=(E(x, y), Lit('T', y, z))), R('E2', y, x, body=(E(x, y),)), lang.Functor('M', 'T', (('E', 'E2'),))], ['T', 'M'], 'set', 'lin')
   S['ring3_through_functor'] = (list(S['ring3'][0]) + [R('E2', y, x, body=(E(x, y),)), lang.Functor('M', 'P', (('E', 'E2'),))], ['P', 'M'], 'set', 'lin')
+  S['tc_one_rule_base_first'] = ([D('T', x, y, body=(('or', ((E(x, y),), (Lit('T', x, z), E(z, y)))),))], ['T'], 'set', 'lin')
+  S['tc_one_rule_base_last'] = ([D('T', x, y, body=(('or', ((Lit('T', x, z), E(z, y)), (E(x, y),))),))], ['T'], 'set', 'lin')
   S['consumer_of_recursive'] = ([D('T', x, y, body=(E(x, y),)), D('T', x, z, body=(E(x, y), Lit('T', y, z))), R('Cnt', x, Aggr('Count', y), body=(Lit('T', x, y),), distinct=True),
                                  R('Neg', x, body=(E(x, y), Not(Lit('T', y, x))))], ['Cnt', 'Neg'], 'agg', 'lin')
   S['tc_left_bag'] = ([R('T', x, y, body=(E(x, y),)), R('T', x, z, body=(Lit('T', x, y), E(y, z)))], ['T'], 'bag', 'lin')
@@ -1152,6 +1176,13 @@ def c04_cases(thorough):
       for sub in ([apps[0]], [apps[1], apps[2]], [apps[3], apps[4], apps[5]], [apps[0], apps[6]], [apps[5], apps[3]]):
         p = Program(consts + [steps, F] + sub)
         yield Case('FUNCTOR-POS', p, ['F', 'Steps'] + [a.new for a in sub], schema='U4', dbs=cdbs, fact_dbs=[], info=dict(position=pname, direct=direct))
+  # constant arguments whose spellings are close to each other (a number and the string of its digits, strings differing in punctuation only)
+  sep = [R('Sep', value=S('/')), R('Row', x, value=Bin('++', Bin('++', Call('ToString', x), Call('Sep')), S('1')), body=(Lit('A1', x),))]
+  num = [R('Num0', value=N(0)), R('Plus', x, value=Bin('+', x, Call('Num0')), body=(Lit('A1', x),))]
+  apps = [Functor('Comma', 'Row', (('Sep', S(',')),)), Functor('Semi', 'Row', (('Sep', S(';')),)), Functor('Under', 'Row', (('Sep', S('_')),)), Functor('Space', 'Row', (('Sep', S(' ')),)), Functor('Twelve', 'Row', (('Sep', S('12')),)),
+          Functor('P12', 'Plus', (('Num0', N(12)),)), Functor('P1', 'Plus', (('Num0', N(1)),)), Functor('AB1', 'Row', (('Sep', S('a b')),)), Functor('AB2', 'Row', (('Sep', S('a_b')),)), Functor('Empty', 'Row', (('Sep', S('')),))]
+  yield Case('FUNCTOR-POS', Program(sep + num + apps), [a.new for a in apps] + ['Row', 'Plus'], schema='U4', dbs=dbs_u4()[::9], fact_dbs=[], info=dict(position='close-constants', direct=True))
+  yield Case('FUNCTOR-POS', Program(sep + num + apps[::-1]), [a.new for a in apps], schema='U4', dbs=dbs_u4()[::9], fact_dbs=[], info=dict(position='close-constants', direct=True))
   # constants as arguments, value-carrying functors, aggregation inside, annotated intermediate
   extra = [
     [R('Thr', value=N(2)), R('Thr1', value=N(1)), R('F', x, body=(Lit('A1', x), Cmp('>=', x, Call('Thr')))), Functor('G', 'F', (('Thr', 'Thr1'),))],
@@ -1309,6 +1340,9 @@ def c08_shapes(thorough):
   k_ = V('k')
   S['grouped_constant'] = ([R('P', N(0), x, body=(Lit('B', x),)), R('Q', N(7), x, y, body=(Lit('A', x, y),)), R('T', k_, Aggr('Sum', y), body=(Lit('Q', k_, x, y),), distinct=True),
                             R('U', k_, Aggr('Count', x), body=(Lit('P', k_, x),), distinct=True), R('W', z, named={'m': Aggr('Max', x)}, body=(Lit('P', k_, x), Eq(z, Bin('-', k_, N(4)))), distinct=True)], ['P', 'Q'])
+  rchain = ('if', Bin('>', x, N(1)), ('rec', (('a', x), ('b', lang.S('big')))), ('if', Bin('==', x, N(1)), ('rec', (('a', Bin('-', N(0), x)), ('b', lang.S('mid')))), ('rec', (('a', N(0)), ('b', lang.S('small'))))), 'flat')
+  S['record_if_argument'] = ([R('P', x, rchain, body=(Lit('B', x),)), R('T', x, ('fld', V('r'), 'a'), ('fld', V('r'), 'b'), body=(Lit('P', x, V('r')),)), R('U', x, ('fld', V('r'), 'b'), body=(Lit('P', x, V('r')), Cmp('>', ('fld', V('r'), 'a'), N(0)))),
+                                 R('W', x, V('a'), V('b'), body=(Lit('P', x, V('r')), Eq(V('a'), ('fld', V('r'), 'a')), Eq(V('b'), ('fld', V('r'), 'b'))))], ['P'])
   S['chain4'] = (long_chain(4), ['P0', 'P1', 'P2', 'P3'], (0, 1, 6, 4))
   if thorough:
     S['chain6'] = (long_chain(6), ['P%d' % i for i in range(6)], (0, 1, 4))
